@@ -345,7 +345,7 @@ func init() {
 }
 
 func runC13(c *Ctx) (int, error) {
-	cases, gr, err := genParseCases(c, "Gen_Inject", "BaseWellFormed InjectionsIllFormed GraphVerdicts Export", "")
+	cases, gr, err := genParseCases(c, "Gen_Inject", "BaseWellFormed InjectionsIllFormed GraphVerdicts NamesWellFormed Export", "  Parts = {\"base\", \"inject\", \"sites\", \"graph\", \"names\"}\n")
 	if err != nil {
 		return 2, err
 	}
